@@ -288,9 +288,9 @@ Qed.
 Lemma check_case_sound x r :
   check_case x = None -> required (cs_key x) = Some r ->
   eval_req (cs_ctx x) (cs_args x) r = false ->
-  cs_effect x = false /\ cs_class x <> OHaltOther.
+  cs_effect x = false /\ (cs_class x = OHaltOther -> is_silent_noop (cs_key x) = true).
 Proof.
   unfold check_case. intros Hc Hr He. rewrite Hr, He in Hc.
   destruct (cs_effect x); [discriminate|]. split; [reflexivity|].
-  destruct (cs_class x); [discriminate|discriminate|discriminate|discriminate Hc].
+  intros Hcl. rewrite Hcl in Hc. destruct (is_silent_noop (cs_key x)); [reflexivity|discriminate Hc].
 Qed.
